@@ -1,11 +1,13 @@
 // extract — the translator: regenerates coq/Extracted/*.v from /repo's working tree.
 //
 // It prints *data* the proofs talk about, as Gallina terms:
-//   SourceConst.v  string / integer constants and flags (labels, separator, unit strings, rule names, lruSize, @tag flag)
-//   SourceRegex.v  every regexp.MustCompile literal of valid/init.go and file/parse.go as an [rx] tree
-//                  (a direct image of regexp/syntax.Parse(expr, syntax.Perl))
-//   SourceTable.v  the rule-name -> function table validName2FnMap
-//   SourceLRU.v    a lock / field-access summary of every LRUCache method
+//
+//	SourceConst.v  string / integer constants and flags (labels, separator, unit strings, rule names, lruSize, @tag flag)
+//	SourceRegex.v  every regexp.MustCompile literal of valid/init.go and file/parse.go as an [rx] tree
+//	               (a direct image of regexp/syntax.Parse(expr, syntax.Perl))
+//	SourceTable.v  the rule-name -> function table validName2FnMap
+//	SourceLRU.v    a lock / field-access summary of every LRUCache method
+//
 // Files are rewritten only when their content changes.
 package main
 
@@ -46,6 +48,7 @@ func gstr(s string) string {
 type env struct {
 	strs map[string]string
 	ints map[string]int64
+	iota int64 // position in the enclosing const block, -1 outside
 }
 
 func (e *env) evalStr(x ast.Expr) (string, bool) {
@@ -81,6 +84,9 @@ func (e *env) evalInt(x ast.Expr) (int64, bool) {
 			return n, err == nil
 		}
 	case *ast.Ident:
+		if v.Name == "iota" && e.iota >= 0 {
+			return e.iota, true
+		}
 		n, ok := e.ints[v.Name]
 		return n, ok
 	case *ast.ParenExpr:
@@ -123,19 +129,31 @@ func collectConsts(f *ast.File, e *env) {
 		if !ok || (gd.Tok != token.CONST && gd.Tok != token.VAR) {
 			continue
 		}
-		for _, sp := range gd.Specs {
+		var prev []ast.Expr // a const spec without values repeats the previous expression list with the next iota
+		for si, sp := range gd.Specs {
 			vs := sp.(*ast.ValueSpec)
+			vals := vs.Values
+			e.iota = -1
+			if gd.Tok == token.CONST {
+				e.iota = int64(si)
+				if len(vals) == 0 {
+					vals = prev
+				} else {
+					prev = vals
+				}
+			}
 			for i, name := range vs.Names {
-				if i >= len(vs.Values) {
+				if i >= len(vals) {
 					continue
 				}
-				if s, ok := e.evalStr(vs.Values[i]); ok {
+				if s, ok := e.evalStr(vals[i]); ok {
 					e.strs[name.Name] = s
-				} else if n, ok := e.evalInt(vs.Values[i]); ok {
+				} else if n, ok := e.evalInt(vals[i]); ok {
 					e.ints[name.Name] = n
 				}
 			}
 		}
+		e.iota = -1
 	}
 }
 
@@ -283,7 +301,7 @@ func main() {
 			outDir = os.Args[i]
 		}
 	}
-	e := &env{strs: map[string]string{}, ints: map[string]int64{}}
+	e := &env{strs: map[string]string{}, ints: map[string]int64{}, iota: -1}
 	initF := parseFile(filepath.Join(repo, "valid/init.go"))
 	cacheF := parseFile(filepath.Join(repo, "valid/cache.go"))
 	varF := parseFile(filepath.Join(repo, "valid/validvar.go"))
@@ -317,9 +335,12 @@ func main() {
 		die("constant lruSize not found")
 	}
 	fmt.Fprintf(&b, "Definition lruSize : Z := %d%%Z.\n", lru)
-	for _, n := range []string{"YearFmt", "MonthFmt", "DayFmt", "HourFmt", "MinFmt", "SecFmt"} {
-		// iota constants: position in the const block
-		_ = n
+	for _, n := range []string{"YearFmt", "MonthFmt", "DayFmt", "HourFmt", "MinFmt", "SecFmt", "DateFmt", "DateTimeFmt"} {
+		v, ok := e.ints[n]
+		if !ok {
+			die("constant %s not found (iota block of valid/init.go)", n)
+		}
+		fmt.Fprintf(&b, "Definition %s : Z := %d%%Z.\n", n, v)
 	}
 	writeIfChanged(filepath.Join(outDir, "SourceConst.v"), b.Bytes())
 
@@ -413,6 +434,12 @@ func main() {
 	writeIfChanged(filepath.Join(outDir, "SourceFnsRule.v"), miniGo(fnFiles, [][2]string{{"valid/validfn.go", "To"}, {"valid/validfn.go", "OTo"},
 		{"valid/validfn.go", "Ge"}, {"valid/validfn.go", "Gt"}, {"valid/validfn.go", "Le"}, {"valid/validfn.go", "Lt"},
 		{"valid/validfn.go", "Eq"}, {"valid/validfn.go", "NoEq"}}))
+	writeIfChanged(filepath.Join(outDir, "SourceFnsFmt.v"), miniGo(fnFiles, [][2]string{{"valid/validfn.go", "Phone"}, {"valid/validfn.go", "Email"},
+		{"valid/validfn.go", "IDCard"}, {"valid/validfn.go", "Ip"}, {"valid/validfn.go", "Ipv4"}, {"valid/validfn.go", "Ipv6"},
+		{"valid/validfn.go", "Year"}, {"valid/validfn.go", "Year2Month"}, {"valid/validfn.go", "Date"},
+		{"valid/validfn.go", "Prefix"}, {"valid/validfn.go", "Suffix"}, {"valid/common.go", "CheckFieldIsStr"},
+		{"valid/validfn.go", "Int"}, {"valid/validfn.go", "Float"}, {"valid/validfn.go", "Json"}, {"valid/validfn.go", "File"},
+		{"valid/validfn.go", "Dir"}}))
 	writeIfChanged(filepath.Join(outDir, "SourceFnsToStr.v"), miniGo(fnFiles, [][2]string{{"valid/common.go", "ToStr"}}))
 	writeIfChanged(filepath.Join(outDir, "SourceFnsSplit.v"), miniGo(fnFiles, [][2]string{{"valid/common.go", "ValidNamesSplit"}}))
 	writeIfChanged(filepath.Join(outDir, "SourceFnsLRU.v"), miniGo(fnFiles, [][2]string{{"valid/cache.go", "LRUCache_Store"}, {"valid/cache.go", "LRUCache_Load"},
